@@ -4,7 +4,7 @@
     what the implementation returned, the conclusion below — the statement of C01 for that
     input — holds over the reals. *)
 From Coq Require Import QArith Qreals Reals List.
-From D3 Require Import Base.Ops Base.Vec Base.RVec Spec.Convex Checker.Shapes Checker.Narrow.
+From D3 Require Import Base.Ops Base.Vec Base.RVec Spec.Convex Checker.Shapes Checker.Narrow Model.Simplex Model.JoltLoop Proofs.JoltLoop.
 Import ListNotations.
 
 (** the support-value bound every separation certificate rests on *)
@@ -39,8 +39,55 @@ Example C01_nonvacuous :
             (V 1 0 0) (V 2 0 0) (11 # 10) (1 # 100000) = false.
 Proof. split; vm_compute; reflexivity. Qed.
 
+(** ** Theorems about the model of the loop itself (Model/JoltLoop.v: _distance_loop,
+    calculate_closest_points and the driver of gjk_distance_jolt, in exact real arithmetic),
+    for ARBITRARY point sets A, B given only through support mappings.
+    What is NOT proved: that the relative-progress exit is within 1e-5 L of the optimum in
+    binary64 (DESIGN section 7) - that is what the certificate above judges per input. *)
+
+(** along every execution of the driver, every live row i satisfies P[i] in A, Q[i] in B,
+    Y[i] = P[i] - Q[i] *)
+Theorem C01_loop_rows_invariant : forall (A B : set3) (sA sB : V3R -> V3R) tol maxd san,
+  (forall d, A (sA d)) -> (forall d, B (sB d)) ->
+  forall fuel s it dist a b s' it',
+    srows A B s -> distance_loop fuel tol maxd san sA sB s it = DOk dist a b s' it' -> srows A B s'.
+Proof. exact distance_loop_invariant. Qed.
+
+(** one iteration preserves the row relation and (while the loop continues) the identity
+    v_len_sq = |search_direction|^2 that the clipping test relies on *)
+Theorem C01_step_invariant : forall (A B : set3) tol maxd p q s g s',
+  srows A B s -> A p -> B q -> distance_step tol maxd p q s = SDone g s' ->
+  srows A B s' /\ (dinv s -> g = Unknown -> dinv s').
+Proof. exact distance_step_invariant. Qed.
+
+(** the early exit "Clipped" (result MAX_FLOAT) is taken only if every pair of points is farther
+    apart than sqrt(max_distance_squared) *)
+Theorem C01_clipped_exit_sound : forall (A B : set3) tol maxd p q s s',
+  dinv s -> (0 <= maxd)%R ->
+  is_support A (search_direction s) p -> is_support B (vneg (search_direction s)) q ->
+  distance_step tol maxd p q s = SDone Clipped s' ->
+  forall a b, A a -> B b -> (maxd < dot (vsub a b) (vsub a b))%R.
+Proof. exact clipped_sound. Qed.
+
+(** the returned points are the same weighted combination of the rows of P resp. Q, and their
+    difference is that combination of the rows of Y (partial: non-negativity of the weights,
+    hence membership of a in A and b in B for convex sets, rests on the simplex solver having
+    left a carrier simplex - C18 - and is judged per input by dist_cert) *)
+Theorem C01_closest_points_difference_partial : forall (A B : set3) Y P Q a b,
+  rows A B Y P Q -> calculate_closest_points Y P Q = Some (a, b) ->
+  exists ws, length ws = length Y /\ a = comb ws P /\ b = comb ws Q /\ vsub a b = comb ws Y.
+Proof. exact closest_points_difference. Qed.
+
+Example C01_loop_nonvacuous : srows (fun _ => True) (fun _ => True) (@dstate0 R ROps) /\ dinv (@dstate0 R ROps).
+Proof. split; [apply srows0 | apply dinv0]. Qed.
+
 Print Assumptions C01_support_bound_sound.
 Print Assumptions C01_witness_sound.
 Print Assumptions C01_separation_sound.
 Print Assumptions C01_result_certificate_sound.
 Print Assumptions C01_nonvacuous.
+Print Assumptions C01_loop_rows_invariant.
+Print Assumptions C01_step_invariant.
+Print Assumptions C01_clipped_exit_sound.
+Print Assumptions C01_closest_points_difference_partial.
+Print Assumptions C01_loop_nonvacuous.
